@@ -202,6 +202,10 @@ func frags() []Frag {
 		{"comment", "{##}", ""},
 		{"comment-probe", "{# {{ probe() }} {% bogus %} #}", ""},
 		{"commenttag-empty", "{% comment %}{% endcomment %}", ""},
+		// the tags of a comment block in other valid spellings
+		{"commenttag-spelling", "{% comment %}one{%- endcomment %}", ""},
+		{"commenttag-spelling", "{%comment%}two{{ probe() }}{%endcomment%}", ""},
+		{"commenttag-spelling", "{%  comment  -%}three{%-  endcomment  %}", ""},
 		{"commenttag-probe", "{% comment %}x{{ probe() }}{% bogus 1 %}{% if %}{% endcomment %}", ""},
 		{"templatetag", "{% templatetag openblock %}", "{%"},
 		{"templatetag", "{% templatetag openvariable %}", "{{"},
@@ -377,6 +381,9 @@ func run(r *eng.Runner) {
 				r.Do(&SeqCase{Srcs: []eng.Q{eng.Q("{% if 1 -%}" + vb + "{%- endif %}")}, Outs: []eng.Q{eng.Q(body)}, Kinds: []string{"verbatim-neighbours"}, Opts: opts})
 				r.Do(&SeqCase{Srcs: []eng.Q{eng.Q("{% if 1 %}" + vb + "{% endif %}")}, Outs: []eng.Q{eng.Q(body)}, Kinds: []string{"verbatim-neighbours"}, Opts: opts})
 				r.Do(&SeqCase{Srcs: []eng.Q{eng.Q("x{{ 1 }}" + vb + "{% if 1 %}y{% endif %}")}, Outs: []eng.Q{eng.Q("x1" + body + "y")}, Kinds: []string{"verbatim-neighbours"}, Opts: opts})
+				// blank text between the block and the trimming neighbour: the blank text goes, the body stays
+				r.Do(&SeqCase{Srcs: []eng.Q{eng.Q("[{{ 1 -}} \n" + vb + " \t{{- 1 }}]")}, Outs: []eng.Q{eng.Q("[1" + body + "1]")}, Kinds: []string{"verbatim-neighbours"}, Opts: opts})
+				r.Do(&SeqCase{Srcs: []eng.Q{eng.Q("[{# c #}" + vb + "{# c #} {{- 1 }}{{ 1 -}} {# c #}" + vb + "]")}, Outs: []eng.Q{eng.Q("[" + body + "11" + body + "]")}, Kinds: []string{"verbatim-neighbours"}, Opts: opts})
 			}
 		}
 	}
@@ -409,7 +416,7 @@ func init() {
 			"(b) every sequence of fragments up to the bound must render to the concatenation of the fragments' individual renderings, and functions inside comments are never called. " +
 			"Non-trivial: (a) the string contains a lexer-significant, control or non-ASCII byte; (b) the sequence contains a non-text fragment. Cases are distinct by construction (a) / deduplicated by source (b).",
 		Assumptions: []string{
-			"verbatim/comment delimiters are written in their canonical spelling ({% verbatim %}, {% endverbatim %})",
+			"verbatim delimiters are written in their canonical spelling ({% verbatim %}, {% endverbatim %}): the lexer recognises no other",
 			"joins of two fragments that would form a new opening delimiter are skipped and counted",
 			"content of comment tags is lexable (lexing is not evaluation)",
 		},
